@@ -75,6 +75,14 @@ pub trait Engine: Sync {
     fn may_kill_process(&self) -> bool {
         false
     }
+    /// address-space limit of a worker process
+    fn worker_address_space_mb(&self) -> u64 {
+        4096
+    }
+    /// how many process deaths one worker slot tolerates before the batch is cut short
+    fn max_deaths_per_worker(&self) -> usize {
+        6
+    }
 }
 
 pub fn base_seed() -> u64 {
@@ -110,7 +118,8 @@ pub fn worker_main(engine: &dyn Engine, args: &[String]) -> i32 {
     };
     // a run must not be able to exhaust the machine: bound the address space
     unsafe {
-        let lim = libc::rlimit { rlim_cur: 4 << 30, rlim_max: 4 << 30 };
+        let bytes = engine.worker_address_space_mb() << 20;
+        let lim = libc::rlimit { rlim_cur: bytes, rlim_max: bytes };
         libc::setrlimit(libc::RLIMIT_AS, &lim);
     }
     // the protocol goes to a private duplicate of fd 1; fd 1 itself is pointed at
@@ -170,7 +179,27 @@ pub fn worker_main(engine: &dyn Engine, args: &[String]) -> i32 {
         if let Some(d) = &r.invalid {
             writeln!(out, "I {} {}", i, d.replace('\n', " ")).unwrap();
         }
+        // statistics are flushed regularly so that a process death loses little
+        if n % 200 == 199 {
+            emit_stats(&mut out, &mut counters, &mut steps, &mut sched, &mut sched_nontrivial, &mut states, &mut samples);
+        }
     }
+    emit_stats(&mut out, &mut counters, &mut steps, &mut sched, &mut sched_nontrivial, &mut states, &mut samples);
+    writeln!(out, "DONE").unwrap();
+    out.flush().unwrap();
+    0
+}
+
+#[allow(clippy::too_many_arguments)]
+fn emit_stats(
+    out: &mut impl Write,
+    counters: &mut BTreeMap<String, u64>,
+    steps: &mut u64,
+    sched: &mut HashSet<u64>,
+    sched_nontrivial: &mut HashSet<u64>,
+    states: &mut HashSet<u64>,
+    samples: &mut Vec<Value>,
+) {
     writeln!(
         out,
         "S {}",
@@ -184,9 +213,13 @@ pub fn worker_main(engine: &dyn Engine, args: &[String]) -> i32 {
         })
     )
     .unwrap();
-    writeln!(out, "DONE").unwrap();
-    out.flush().unwrap();
-    0
+    let _ = out.flush();
+    counters.clear();
+    *steps = 0;
+    sched.clear();
+    sched_nontrivial.clear();
+    states.clear();
+    samples.clear();
 }
 
 // ------------------------------------------------------------- coordinator
@@ -378,6 +411,7 @@ pub fn check_main(engine: &'static dyn Engine, tier: &str) -> i32 {
 
     // main batch; a worker that dies is resumed after the culprit index
     let mut handles = vec![];
+    let max_deaths = engine.max_deaths_per_worker();
     for w in 0..nworkers {
         let tier = tier.to_string();
         handles.push(std::thread::spawn(move || {
@@ -405,7 +439,7 @@ pub fn check_main(engine: &'static dyn Engine, tier: &str) -> i32 {
                     Some((i, s)) => {
                         from = i + 1;
                         reports.push((rep, Some((i, s))));
-                        if reports.len() > 6 {
+                        if reports.len() > max_deaths {
                             // enough process deaths to fail the check; do not burn the machine
                             break;
                         }
@@ -435,6 +469,17 @@ pub fn check_main(engine: &'static dyn Engine, tier: &str) -> i32 {
     }
 
     // classify process deaths: re-run alone, then ask the engine
+    for (i, seed, status) in agg.deaths.clone().into_iter().skip(4) {
+        // beyond the first few, deaths are taken at face value (no confirming re-run)
+        let case = engine.generate(seed, quick);
+        let r = engine.on_process_death(&case, &status);
+        agg.evaluations += 1;
+        if let Some(v) = r.violation {
+            agg.violations.push(json!({"index": i, "seed": seed, "signature": v.signature, "detail": v.detail, "case": case}));
+        } else if let Some(d) = r.discarded {
+            *agg.discarded.entry(d).or_insert(0) += 1;
+        }
+    }
     for (i, seed, status) in agg.deaths.clone().into_iter().take(4) {
         let rep = spawn_worker(prop, tier, base, &["list".into(), i.to_string()]);
         let mut tmp = Aggregate::default();
@@ -490,8 +535,9 @@ pub fn check_main(engine: &'static dyn Engine, tier: &str) -> i32 {
             absorb(&mut tmp, &rep);
             for (i, hsh) in tmp.log_hashes {
                 rechecked += 1;
-                if agg.log_hashes.get(&i) != Some(&hsh) {
-                    recheck_mismatch.push(i);
+                match agg.log_hashes.get(&i) {
+                    Some(h) if h != &hsh => recheck_mismatch.push(i),
+                    _ => {}
                 }
             }
         }
@@ -569,6 +615,9 @@ pub fn check_main(engine: &'static dyn Engine, tier: &str) -> i32 {
                 text.lines().last().unwrap_or("")
             ));
         }
+    }
+    for (sig, v) in new_violations.iter().skip(5) {
+        println!("  further violation signature (not minimised): {} e.g. index {}", sig, v["index"]);
     }
     if new_violations.len() > 5 {
         println!(
